@@ -31,11 +31,24 @@ def pHexChars : List Char → Option (List Nat)
       let x ← hexVal a; let y ← hexVal b; let t ← pHexChars r
       some ((x * 16 + y) :: t)
 
-/-- `x<hex>` -/
-def pBytes (s : String) : Option (List Nat) :=
+/-- one segment: `x<hex>` or `R<n>*<hh>` (n copies of the byte hh) -/
+def pBytesSeg (s : String) : Option (List Nat) :=
   match s.toList with
   | 'x' :: r => pHexChars r
+  | 'R' :: r =>
+    match (String.ofList r).splitOn "*" with
+    | [n, hh] => do
+      let n ← n.toNat?
+      let b ← pHexChars hh.toList
+      match b with
+      | [v] => some (List.replicate n v)
+      | _ => none
+    | _ => none
   | _ => none
+
+/-- a byte string: segments joined by '+' (so that megabyte inputs stay short on the wire) -/
+def pBytes (s : String) : Option (List Nat) :=
+  ((s.splitOn "+").mapM pBytesSeg).map List.flatten
 
 def pBytesList (s : String) : Option (List (List Nat)) :=
   if s = "-" then some [] else (s.splitOn ",").mapM pBytes
@@ -45,8 +58,14 @@ def pNested (s : String) : Option (List (List Int)) :=
 
 def hexDigit (n : Nat) : Char := if n < 10 then Char.ofNat (48 + n) else Char.ofNat (87 + n)
 
+/-- FNV-1a, 64 bit -/
+def fnv64 (b : List Nat) : Nat :=
+  b.foldl (fun h v => ((h ^^^ v) * 1099511628211) % 18446744073709551616) 14695981039346656037
+
+/-- byte strings longer than 4096 bytes are printed as `X<len>:<fnv64>` by both sides -/
 def showBytes (b : List Nat) : String :=
-  String.ofList ('x' :: b.flatMap fun v => [hexDigit (v / 16 % 16), hexDigit (v % 16)])
+  if b.length > 4096 then s!"X{b.length}:{fnv64 b}"
+  else String.ofList ('x' :: b.flatMap fun v => [hexDigit (v / 16 % 16), hexDigit (v % 16)])
 
 def showList {α} (f : α → String) (l : List α) : String :=
   if l.isEmpty then "-" else String.intercalate "," (l.map f)
